@@ -378,6 +378,18 @@ def unfoldAt (red bin : OpK) (vars : List Name) (pre : List (Ex α)) (v : Ex α)
     else none
   | _ => none
 
+/-- What the distribution branch must NOT do: select "the other factors" by an identity test
+    (`others = tuple(t for t in terms if t is not v)`) instead of by POSITION (`terms[:i] + terms[i+1:]`,
+    as `unfoldAt`'s `pre` / `post`).  Funsors are interned, so an equal factor occurring twice is one
+    object and the test drops both copies.  `same` is the identity test.  (Only used by the witness
+    theorem `distribute_by_identity_witness`.) -/
+def distributeByIdentity (same : Ex α → Ex α → Bool) (red bin : OpK) (vars : List Name) (ts : List (Ex α))
+    (v : Ex α) : Option (Ex α) :=
+  match v with
+  | .contr r' b' vars' ts' =>
+    some (.contr red b' vars (ts'.map fun vt => .contr r' bin vars' ((ts.filter fun t => !same t v) ++ [vt])))
+  | _ => none
+
 def ruleUnfold : Ex α → Option (Ex α)
   | .contr red bin vars ts => scanSplit (unfoldAt red bin vars) [] ts
   | _ => none
